@@ -20,13 +20,11 @@ spec('protected_prefix', {'m': M}, Bytes,
      '+ be(4 + len(sk_body(m)) + icv_len(m), 2) + sk_body(m)')
 
 contract('message.Message.to_bytes', returns=Bytes, props=['C05', 'C07'],
-         requires=['inv_hdr(self)', 'inv_chain(self.payloads)', 'inv_chain(self.encrypted_payloads)',
-                   '28 + len(enc_chain(self.payloads, 0)) < 2 ** 32',
-                   # protected messages as the daemon emits them: SK is the only cleartext payload
-                   'implies(self.crypto is not None, inv_crypto(self.crypto) and self.iv is not None '
-                   'and len(self.iv) == 16 and len(self.payloads) == 0 '
-                   'and len(enc_chain(self.encrypted_payloads, 0)) <= 65000)'],
-         reveal=['inv_payload(self.payloads[0])', 'ptype(self.payloads[0])',
+         # wire_ok (c_ikesa_core.py): header fields fit, both chains fit, and protected messages are as the
+         # daemon emits them (SK is the only cleartext payload, 16-byte IV, inner chain <= 65000 octets)
+         requires=['wire_ok(self)'],
+         reveal=['wire_ok(self)', 'wire(self)', 'inv_chain(self.payloads)', 'inv_chain(self.encrypted_payloads)',
+                 'inv_payload(self.payloads[0])', 'ptype(self.payloads[0])',
                  'inv_payload(self.encrypted_payloads[0])', 'ptype(self.encrypted_payloads[0])'],
          lemmas=['implies(len(self.payloads) > 0, self.payloads[0].type == ptype(self.payloads[0]))',
                  'implies(len(self.encrypted_payloads) > 0, '
@@ -49,7 +47,10 @@ contract('message.Message.to_bytes', returns=Bytes, props=['C05', 'C07'],
                 'data@3': [
                     {'when': 'self.crypto is not None',
                      'rewrite': 'protected_prefix(self) + checksum'}]},
+         raises={},
          ensures={
+             # the datagram is a function of the message value (what C13's byte-identical retransmission uses)
+             'C13,C05:wire': 'result == wire(self)', 'C05:min-len': 'len(result) >= 28',
              'C05:clear': 'implies(self.crypto is None, '
                           'result == enc_hdr(self, first_type(self.payloads), 28 + len(enc_chain(self.payloads, 0))) '
                           '+ enc_chain(self.payloads, 0))',
